@@ -261,6 +261,16 @@ fn hist<T: Sc>(t: &mut Toks, cx: &mut Ctx) -> String {
         if k > 0 { out.push_str(" ; "); }
         out.push_str(op);
         out.push(' ');
+        if op == "norms" {
+            // read-only view: the five norms of the CURRENT state (after whatever edits came before) against the
+            // entrywise definitions evaluated through the index operator
+            let p: f64 = t.get();
+            let snap = m.clone();
+            match T::mat_norms_view(&m, p) { Some((s, fails)) => { out.push_str(&s); for f in fails { cx.fail(f); } } None => out.push_str("n/a") }
+            cx.check(same_mat(&m, &snap), "norm mutated the matrix");
+            out.push_str(" | "); out.push_str(&wr_mat(&m));
+            continue;
+        }
         out.push_str(&apply(&mut m, op, t, cx));
         out.push_str(" | ");
         out.push_str(&wr_mat(&m));
@@ -369,6 +379,23 @@ pub fn gen(rng: &mut Rng, tier: Tier, out: &mut Vec<String>) {
         out.push(gen_hist::<Q>(rng, nops, if i % 4 == 0 { 25 } else { 5 }));
     }
     for _ in 0..nh / 5 { let nops = 1 + rng.below(15); out.push(gen_hist::<f64>(rng, nops, 5)); }
+    // f64 histories in which every edit is followed by the norm view: an edit that leaves the internal buffer / a cached
+    // length stale (delete_row, resize, transposes, clear ...) shows in a norm that walks the buffer
+    for _ in 0..nh / 3 {
+        let nops = 2 + rng.below(8);
+        let (mut r, mut c) = (1 + rng.below(6), 1 + rng.below(6));
+        let m0 = gen_mat_str::<f64>(rng, r, c, 15, 0);
+        let mut ops = String::new(); let mut cnt = 0;
+        for _ in 0..nops {
+            let op = match rng.below(6) { 0 | 1 => { let i = if r == 0 { 0 } else { rng.below(r) }; if i < r { r -= 1; } format!("delrow {}", i) }
+                                          2 => { r = rng.below(7); c = rng.below(7); format!("resize {} {}", r, c) }
+                                          3 => { std::mem::swap(&mut r, &mut c); "trip".to_string() }
+                                          _ => gen_op::<f64>(rng, &mut r, &mut c, 0) };
+            let p = *rng.pick(&[1.0f64, 2.0, 3.0, 1.5]);
+            ops.push_str(&format!(" {} norms {}", op, p.wr())); cnt += 2;
+        }
+        out.push(format!("mat_hist f {} {}{}", m0, cnt, ops));
+    }
     for _ in 0..nh / 10 { let nops = 1 + rng.below(10); out.push(gen_hist::<ohsl::Cmplx>(rng, nops, 5)); }
     // (4) norms on dyadic f64 data, all shapes up to 6x6
     for r in 0..7 { for c in 0..7 { for _ in 0..(if tier == Tier::Quick { 1 } else { 10 }) {
